@@ -1,5 +1,6 @@
 import MosnVerif.Drive.Util
 import MosnVerif.Model.Headers
+import MosnVerif.Drive.RetryDrive
 namespace MosnVerif.Drive.C17
 open MosnVerif.Drive MosnVerif.Model.Headers MosnVerif.Gen.HeaderMutation MosnVerif.Gen.ProxyTimeout
 
@@ -89,6 +90,9 @@ def run (caseToks impl : List String) : String :=
   match caseToks with
   | ["hdr", side, r, v, g, h0] => hdr side r v g h0 impl
   | "to" :: rest => timeout rest impl
+  | "rt" :: rest => RetryDrive.rt rest impl
+  | "rw" :: rest => RetryDrive.rw rest impl
+  | "rd" :: rest => RetryDrive.rd rest impl
   | _ => "E E unknown-kind"
 
 end MosnVerif.Drive.C17
